@@ -154,7 +154,12 @@ class Guards:
                 if need_field and not (
                         isinstance(cx.args[0], ast.Attribute) and
                         cx.args[0].attr == need_field):
-                    continue
+                    # through a helper parameter: the argument must still
+                    # originate from a record's func_name
+                    org = self.ctx.H.origins(cx.args[0], func, cn)
+                    if not any(o[0] in ('attr', 'field') and
+                               o[-1] == need_field for o in org):
+                        continue
                 return 'T'
             return None
         return m
